@@ -3,7 +3,7 @@
    deck list (every deck entry is a distinct power of two, C14). *)
 From Coq Require Import String.
 From CKC Require Import Base.Prelude Base.Reflect Spec.Layout Model.Card Model.Hands Model.Binary Model.Parse.
-From CKC Require Import Proofs.CardFacts Proofs.C14.
+From CKC Require Import Proofs.CardBase Proofs.C14.
 From CKC Require Import Gen.Consts Gen.Decks Gen.Scan.
 Open Scope N_scope.
 
